@@ -121,7 +121,7 @@ impl<'a, R: Read> Lexer<Scanner<'a, R>> {
                         Ok(char) => {
                             // If using CRLF, normalize to LF
                             if last_char == b'\r' && char == b'\n' {
-                                self.scanner.read()?;
+                                self.scanner.advance()?;
                             }
 
                             Ok(&self.cur)
